@@ -19,6 +19,7 @@ import (
 	"verif/harness/internal/conc"
 	"verif/harness/internal/evt"
 	"verif/harness/internal/vk"
+	"verif/harness/internal/watchdog"
 )
 
 // TestC06Wait: publishers publish to async handlers whose bodies yield / sleep / publish further
@@ -31,8 +32,12 @@ func TestC06Wait(t *testing.T) {
 	n := run.Scale(600, 15000)
 	procs := []int{1, 2, 4, 16}
 	defer runtime.GOMAXPROCS(runtime.GOMAXPROCS(0))
+	dog := hangDog(run, "wait")
+	defer dog.Stop()
 	for i := 0; i < n; i++ {
 		rng := run.Rand(uint64(i))
+		dog.Tick()
+		dog.Case(fmt.Sprintf("round %d", i))
 		runtime.GOMAXPROCS(procs[i%len(procs)])
 		nT := 1 + rng.IntN(3)
 		drivers := conc.SameShardTypes(all, nT, rng.Uint64())
@@ -130,6 +135,21 @@ func TestC06Wait(t *testing.T) {
 			run.Sample(map[string]any{"publishers": P, "handlers": nH, "max_nesting": maxDepth, "history_len": len(w.Log)})
 		}
 	}
+}
+
+// hangDog: a Wait / Shutdown / publish that never returns is a deadlock only by the dump rule.
+func hangDog(run *vk.Run, part string) *watchdog.Dog {
+	var d *watchdog.Dog
+	d = watchdog.Start(20*time.Second, func(v watchdog.Verdict) {
+		if !v.Deadlock {
+			run.Count("watchdog_slow_windows", 1)
+			return
+		}
+		run.Violation(part+":hang", "publishers / Wait / Shutdown stopped making progress with goroutines parked below ebu frames ("+v.Case+")", map[string]any{"case": v.Case, "dump": v.Dump[:min(len(v.Dump), 20000)]})
+		run.Finish()
+		watchdog.Exit()
+	})
+	return d
 }
 
 func checkWait(run *vk.Run, w *conc.World, caseNo, procs int) (string, bool) {
@@ -412,8 +432,12 @@ func TestC06WaitStorm(t *testing.T) {
 	n := run.Scale(150, 1500)
 	procs := []int{4, 16, 2, 8}
 	defer runtime.GOMAXPROCS(runtime.GOMAXPROCS(0))
+	dog := hangDog(run, "wait-storm")
+	defer dog.Stop()
 	for i := 0; i < n; i++ {
 		rng := run.Rand(uint64(i))
+		dog.Tick()
+		dog.Case(fmt.Sprintf("round %d", i))
 		runtime.GOMAXPROCS(procs[i%len(procs)])
 		var drivers []evt.Driver
 		for _, j := range rng.Perm(len(all))[:2] {
